@@ -22,7 +22,7 @@ func init() {
 		Tech:        "static analysis: shared insert-only / store-result / ownership rules plus guarded-by-condition provenance of the unwrapping key",
 		NeedU1:      true,
 		Rules: []func(*Ctx){ruleC13InsertOnly, ruleC13NoOtherWrites, ruleC13NothingOnlyWhenAbsent, ruleC02FreshKeyOnlyIfStored, ruleC02SuccessIsStoreBool, ruleC02RecordMatchesKey, ruleC14LoserAdoptsStored,
-			ruleC14ParentReresolved, deferredCloseSparesReturnedRule("C14", pkgApp, pkgInt), ruleC08EveryHandoutCounted, ruleC01LatestFetchedUnderOwnID, ruleC14LoadedRecordsNotModified, optionsCommuteRule("C14", pkgDynV1, pkgDynV2, pkgApp), ruleC04NewKeysStampedNow, ruleC01NoValidityGateOnRead, ruleC13ConsistentReads, ruleC13StoreResult},
+			ruleC14ParentReresolved, ruleC17ClientPerRegion, ruleC05PolicyDurationsVerbatim, deferredCloseSparesReturnedRule("C14", pkgApp, pkgInt), ruleC08EveryHandoutCounted, ruleC01LatestFetchedUnderOwnID, ruleC14LoadedRecordsNotModified, optionsCommuteRule("C14", pkgDynV1, pkgDynV2, pkgApp), ruleC04NewKeysStampedNow, ruleC01NoValidityGateOnRead, ruleC13ConsistentReads, ruleC13StoreResult},
 	})
 }
 
